@@ -949,6 +949,7 @@ class Engine:
             return self.exec_try(s, env)
         if isinstance(s, ast.FunctionDef):
             env[s.name] = VClosure(s, env, self.modinfo)
+            env[s.name].owner = (self.frames[-1].get('rel'), self.frames[-1].get('qual'))     # the function it is nested in
             return
         raise Unsupported('statement {} (line {})'.format(type(s).__name__, s.lineno))
 
@@ -1903,6 +1904,9 @@ class Engine:
         if len(e.generators) != 1 or e.generators[0].ifs:
             raise Unsupported('comprehension shape')
         g = e.generators[0]
+        ch = self.match_implchain(e, env)
+        if ch is not None:
+            return ch
         if isinstance(g.iter, ast.Call) and len(g.iter.args) == 1 and isinstance(g.iter.args[0], ast.Starred) and not g.iter.keywords \
                 and isinstance(g.target, ast.Name):
             fn = self.eval(g.iter.func, env)
@@ -2046,6 +2050,28 @@ class Engine:
                 return it
         raise Unsupported('comprehension over {!r} (line {})'.format(it, e.lineno))
 
+    def match_implchain(self, e, env):
+        """[[-X[i-1], X[i]] for i in range(1, len(X))]  over an abstract literal list X: the chain X[0] -> X[1] -> ... as
+        the spec term implchain(X)"""
+        g = e.generators[0]
+        if not (isinstance(g.target, ast.Name) and isinstance(e.elt, ast.List) and len(e.elt.elts) == 2):
+            return None
+        i = g.target.id
+        a, b = e.elt.elts
+        if not (isinstance(a, ast.UnaryOp) and isinstance(a.op, ast.USub) and isinstance(a.operand, ast.Subscript)
+                and isinstance(b, ast.Subscript) and isinstance(a.operand.value, ast.Name) and isinstance(b.value, ast.Name)
+                and a.operand.value.id == b.value.id):
+            return None
+        X = b.value.id
+        if ast.unparse(a.operand.slice).replace(' ', '') != i + '-1' or ast.unparse(b.slice) != i:
+            return None
+        if ast.unparse(g.iter).replace(' ', '') != 'range(1,len({}))'.format(X):
+            return None
+        v = env.get(X)
+        if not (isinstance(v, VSeq) and v.sortname == 'ISeq') or 'range' in env or 'len' in env:
+            return None
+        return VSeq(specs.implchain(v.term))
+
     @staticmethod
     def is_flatten(elt, outer):
         """tuple([x for c in OUTER for x in c])  or  [x for c in OUTER for x in c]"""
@@ -2125,6 +2151,13 @@ class Engine:
             raise Unsupported('star args')
         args = [self.eval(a, env) for a in e.args]
         kw = {k.arg: self.eval(k.value, env) for k in e.keywords}
+        if isinstance(f, tuple) and f[0] == 'method' and f[2] == 'extend' and isinstance(f[1], VTuple) and f[1].kind == 'list' \
+                and len(args) == 1 and isinstance(args[0], VSeq) and args[0].sortname == 'CSeq' and isinstance(e.func.value, ast.Name) \
+                and all(isinstance(x, (VTuple, VSeq)) for x in f[1].items):
+            # clauses.extend(<abstract clause sequence>) on a local list of clauses: from here on the name denotes the abstract
+            # sequence  (concrete prefix) ++ (sequence); sound for a list no other name refers to (a local accumulator)
+            env[e.func.value.id] = VSeq(specs.capp(_term(f[1]) if f[1].items else specs.cnil, args[0].term))
+            return None
         if isinstance(f, VClosure):
             return self.call_inline(f.node, f.env, args, kw, f.modinfo, None, e)
         if isinstance(f, VGadFn):
@@ -2191,9 +2224,10 @@ class Engine:
         key = (rel, qual)
         c = self.contracts.get(key)
         caller = self.frames[-1]['contract']
-        if c is not None and not c.get('inline_always'):
+        wants_inline = key in caller.get('inline', []) or qual in caller.get('inline', [])
+        if c is not None and not c.get('inline_always') and not wants_inline:
             return self.call_contract(key, c, fnode, args, kw, node, selfobj)
-        if key in caller.get('inline', []) or (c and c.get('inline_always')) or qual in caller.get('inline', []):
+        if wants_inline or (c and c.get('inline_always')):
             return self.call_inline(fnode, {}, ([selfobj] if selfobj is not None else []) + list(args), kw,
                                     self.repo.module(rel), c, node, rel=rel, qual=qual)
         raise Unsupported('call of {}:{} which has neither a contract nor an inline permission (line {})'.format(rel, qual, node.lineno))
@@ -2360,7 +2394,10 @@ class Engine:
         the pure map l -> gad(sid, l); its contract is assumed for EVERY literal (the closure's own verification discharges
         it), the requirements on its free variables are obligations here"""
         top = self.frames[0]
-        key = (top['rel'], '{}.{}'.format(top['qual'], f.node.name))
+        orel, oqual = getattr(f, 'owner', (None, None))
+        if orel is None or oqual is None:
+            orel, oqual = top['rel'], top['qual']
+        key = (orel, '{}.{}'.format(oqual, f.node.name))
         cc = self.contracts.get(key)
         if cc is None or isinstance(f.node, ast.Lambda):
             raise Unsupported('function value {} has no contract'.format(getattr(f.node, 'name', '<lambda>')))
@@ -2740,6 +2777,7 @@ def sf_trace(eng, node, v):
 
 
 SPEC_FUNCS = {
+    'implchain': _wrap(specs.implchain),
     'ev': sf_ev, 'trace': sf_trace, 'tid': lambda eng, node, t: z3.IntVal(template_id(normalize_template(t, 0, [])[0])),
     'oget': _wrap(specs.oget),
     'dterms': _wrap(specs.dterms), 'dcons': _wrap(specs.dcons), 'tevent': _wrap(specs.tevent), 'cevent': _wrap(specs.cevent),
